@@ -6,11 +6,11 @@
  "replace": ["callback_read_header", "callback_chunkedheader", "get_body_gotclen", "callback_read_toeof"],
  "annotate": ["http/http.c"],
  "defines": ["VERIF_HALLOC", "HTTP_N=16", "HTTP_BODYMAX=8", "VERIF_STRMAX=14", "HTTP_MAYFAIL", "VERIF_NO_DIRTY"],
- "matrix": {"HTTP_BLEN": [4, 7, 8]},
+ "matrix": {"HTTP_BLEN": [4, 8, 9]},
  "models": ["models/libc_string.c", "models/http_env.c", "models/libc_mem.c"],
  "cbmc": ["--malloc-may-fail", "--malloc-fail-null", "--unwindset", "gotheaders_wrapped_for_contract_checking.0:8,gotheaders_wrapped_for_contract_checking.1:14,gotheaders_wrapped_for_contract_checking.2:7,findeol.0:14,http_findheader.0:7"],
  "loop_contracts": false,
- "bounded": true, "bound": "header blocks of exactly HTTP_BLEN bytes, HTTP_BLEN in {4, 7, 8} (all contents): the agreement of the counting pass and the parsing pass is checked by unwinding, not by induction",
+ "bounded": true, "bound": "header blocks of exactly HTTP_BLEN bytes, HTTP_BLEN in {4, 8, 9} (all contents): the agreement of the counting pass and the parsing pass is checked by unwinding, not by induction",
  "allow_undefined": ["strtod", "strtoimax", "fprintf", "abort"],
  "timeout": 1200,
  "assumptions": ["BOUNDED: header block length is one of the matrix values (a symbolic length makes cbmc's array encoding of `malloc(len); memcpy(..., len)` exceed 28 GB); window object <= HTTP_N bytes; all loops of gotheaders and of the inlined callees are unwound",
